@@ -80,6 +80,68 @@ def forced_schedule_hook(pairs, log=None):
     return factory
 
 
+def traced_solve(ctx, circ, sched):
+    """Run the same forced schedule on the real elimination loop (merge hook) and on the Lean loop, and return both traces:
+    per merge step the composite's pins [(base structure id, pin name)] and the coefficient between every ordered pair of them.
+    -> (outcome_impl, steps_impl, outcome_model, steps_model); a step = (pins in the model's order, complex matrix in that order,
+    set of member ids) for the model, dict {(c, name): index}, matrix, members for the implementation."""
+    L = impl.lk()
+    import lekkersim.sol as solmod
+    seen = []
+
+    def factory(sts):
+        inner = forced_schedule_hook(sched)(sts)
+        base = {id(s) for s in sts}
+        known = set(base)
+
+        def hook(solver, st_list, source_st, tar_st):
+            for s in st_list:
+                if id(s) not in known:
+                    known.add(id(s))
+                    seen.append(s)
+            return inner(solver, st_list, source_st, tar_st)
+        return hook
+    try:
+        sol, sts = impl.build_solver(circ)
+    except Exception as e:  # noqa
+        return "build:" + impl.outcome_class(e), [], None, []
+    ids = {id(s): k for k, s in enumerate(sts)}
+    old = getattr(solmod, "_VERIF_MERGE_HOOK", None)
+    out_i, steps_i = "ok", []
+    try:
+        solmod._VERIF_MERGE_HOOK = factory(sts)
+        # snapshot every composite when it is first seen (later merges do not touch it, but a snapshot is safer)
+        snaps = []
+        orig = factory
+
+        def snap(st):
+            pd = {(ids[id(s)], pin.name): i for (s, pin), i in st.pin_dic.items()}
+            mem = sorted(ids[id(s)] for s in st.structures)
+            return pd, np.array(st.Smatrix)[0].copy(), mem
+        sol.solve()
+        comps = list(seen)
+        if len(sts) > 1 and (not comps or comps[-1] is not sol.main):
+            comps.append(sol.main)
+        for st in comps:
+            steps_i.append(snap(st))
+    except Exception as e:  # noqa
+        out_i = impl.outcome_class(e)
+    finally:
+        solmod._VERIF_MERGE_HOOK = old
+    req = {"op": "solve", "trace": True, "sched": [list(p) for p in sched]}
+    req.update(gen.circuit_json(circ))
+    ans = ctx.driver.ask(req)
+    if "steps" not in ans:
+        return out_i, steps_i, ans.get("err", "?"), []
+    steps_m = []
+    for stp in ans["steps"]:
+        pins = [(int(c), nm) for c, nm in stp["pins"]]
+        k = len(pins)
+        flat = [z for row in stp["S"] for z in row]
+        steps_m.append((pins, gen.json_mat_np(flat, k, k) if k else np.zeros((0, 0), complex), sorted(stp["members"])))
+    return out_i, steps_i, "ok", steps_m
+
+
 def all_schedules(n, limit=None, rng=None):
     """all sequences of ordered id pairs that merge n base structures into one"""
     out = []
